@@ -538,9 +538,11 @@ class ExtendedKalmanFilter:
             impl_sensor_jacobian.execute(*state, *self.calibration_vector)
         )
         result = np.zeros((sensor_size, self.state_size))
+        # The flattened jacobian is row-major over state and calibration columns
+        stride = self.state_size + self.calibration_size
         for row in range(sensor_size):
             for col in range(self.state_size):
-                result[row, col] = computed_jacobian[row * sensor_size + col]
+                result[row, col] = computed_jacobian[row * stride + col]
         return result
 
     def process_model(self, dt, state, covariance, control=None):
